@@ -22,3 +22,6 @@ import SigpyVerif.Props.C15
 import SigpyVerif.Props.C18
 import SigpyVerif.Props.C16
 import SigpyVerif.Props.C17
+import SigpyVerif.Props.C11Psd
+import SigpyVerif.Props.C11Duchi
+import SigpyVerif.Props.C11DuchiModel
